@@ -4,6 +4,7 @@ import (
 	"bytes"
 	"encoding/json"
 	"fmt"
+	"reflect"
 	"strings"
 	"testing"
 	"unicode/utf8"
@@ -233,7 +234,18 @@ func checkTxJSON(tx *gobinlog.Transaction) error {
 		return fmt.Errorf("MarshalJSON failed: %v", err)
 	}
 	if !bytes.Equal(direct, out) {
-		return fmt.Errorf("MarshalJSON() and json.Marshal disagree: %.200s vs %.200s", direct, out)
+		// not necessarily the same bytes (encoding/json re-indents and re-escapes what a Marshaler returns,
+		// e.g. '<' as \u003c): the same document
+		if !json.Valid(direct) || !utf8.Valid(direct) {
+			return fmt.Errorf("MarshalJSON() returned something that is not valid UTF-8 JSON: %.300q", direct)
+		}
+		var a, b interface{}
+		da, db := json.NewDecoder(bytes.NewReader(direct)), json.NewDecoder(bytes.NewReader(out))
+		da.UseNumber()
+		db.UseNumber()
+		if ea, eb := da.Decode(&a), db.Decode(&b); ea != nil || eb != nil || !reflect.DeepEqual(a, b) {
+			return fmt.Errorf("MarshalJSON() and json.Marshal disagree: %.200s vs %.200s", direct, out)
+		}
 	}
 	for i := range retainedJSON {
 		r := &retainedJSON[i]
@@ -452,7 +464,10 @@ func hostileString(rt *rapid.T, label string) string {
 		return ""
 	case 1:
 		return rapid.SampledFrom([]string{"a\"b", "back\\slash", "<script>&amp;</script>", "\x00\x01\x1f", "  ", "tab\there\nnl\r", "'quoted'", "\xff\xfe invalid", "ok \xc3\x28", "😀",
-			"\ufffd", "caf\ufffd au lait", "x\ufffdy \u00e9\u00e8", "\u00e9t\u00e9", "\u2028\u2029", "\u0080\u009f", "\ufeffbom"}).Draw(rt, label)
+			"\ufffd", "caf\ufffd au lait", "x\ufffdy \u00e9\u00e8", "\u00e9t\u00e9", "\u2028\u2029", "\u0080\u009f", "\ufeffbom",
+			// text that is itself JSON (or HTML-safe JSON) - documents kept in TEXT columns, SQL that embeds them:
+			// the characters backslash-u-0-0-3-c are data here, not an escape
+			`\u003c`, `{"html":"\u003cb\u003e \u0026 co"}`, `\\u0026`, `a\u003e`, `\u2028`, `\ud800`, `\n\t\"`, `["\\","\""]`, `\u003C\u003E`}).Draw(rt, label)
 	case 2:
 		return string(rapid.SliceOfN(rapid.Byte(), 0, 20).Draw(rt, label))
 	default:
